@@ -292,6 +292,8 @@ TARGETS = list(GL.TARGETS) + [
     ("src/qvector/mod.rs", "QVectorBuilder", "Extend::extend", "g_qvb_extend", {"T": "@T", "I": "[@T]"}),
     ("src/qvector/mod.rs", "QVectorBuilder", "FromIterator::from_iter", "g_qvb_from_iter", {"T": "@T", "I": "[@T]"}),
     ("src/qvector/mod.rs", "QVector", "FromIterator::from_iter", "g_qv_from_iter", {"T": "@T", "I": "[@T]"}),
+    ("src/qvector/rs_qvector.rs", "RSQVector", "new", "g_rsq256_new", {"S": "RSSupportPlain", "B_SIZE": 256, "T": "@T", "I": "[@T]"}),
+    ("src/qvector/rs_qvector.rs", "RSQVector", "new", "g_rsq512_new", {"S": "RSSupportPlain", "B_SIZE": 512, "T": "@T", "I": "[@T]"}),
     # ---- group bvm: BitVectorMut (the `&mut self` operations return the new values of the fields)
     ("src/bitvector/mod.rs", "DataLine", "set_symbol", "g_bline_set_symbol", {"__t3__": True}),
     ("src/bitvector/mod.rs", "BitVectorMut", "len", "g_bvm_len", {}),
@@ -322,9 +324,13 @@ TARGETS = list(GL.TARGETS) + [
     ("src/bitvector/mod.rs", "BitVectorIter", "ExactSizeIterator::len", "g_bvit_len", {}),
     # ---- group wtnew: the plain binary WaveletTree::new
     ("src/binwt/mod.rs", "WaveletTree", "new", "g_wt_new", {"T": "@T", "BRS": "RSWide", "COMPRESSED": False}),
+    ("src/binwt/mod.rs", "WaveletTree", "FromIterator::from_iter", "g_wt_from_iter", {"T": "@T", "I": "[@T]", "BRS": "RSWide", "COMPRESSED": False}),
+    ("src/binwt/mod.rs", "WaveletTree", "From::from", "g_wt_from_vec", {"T": "@T", "BRS": "RSWide", "COMPRESSED": False}),
     # ---- group qwtnew: QWaveletTree::new (the whole construction: levels, partitions, directories)
     ("src/quadwt/mod.rs", "QWaveletTree", "new", "g_qwt256_new", {"T": "@T", "RS": "RSQVector", "S": "RSSupportPlain", "B_SIZE": 256, "WITH_PREFETCH_SUPPORT": False}),
     ("src/quadwt/mod.rs", "QWaveletTree", "new", "g_qwt512_new", {"T": "@T", "RS": "RSQVector", "S": "RSSupportPlain", "B_SIZE": 512, "WITH_PREFETCH_SUPPORT": False}),
+    ("src/quadwt/mod.rs", "QWaveletTree", "FromIterator::from_iter", "g_qwt256_from_iter", {"T": "@T", "I": "[@T]", "RS": "RSQVector", "S": "RSSupportPlain", "B_SIZE": 256, "WITH_PREFETCH_SUPPORT": False}),
+    ("src/quadwt/mod.rs", "QWaveletTree", "FromIterator::from_iter", "g_qwt512_from_iter", {"T": "@T", "I": "[@T]", "RS": "RSQVector", "S": "RSSupportPlain", "B_SIZE": 512, "WITH_PREFETCH_SUPPORT": False}),
     ("src/quadwt/mod.rs", "QWaveletTree", "From::from", "g_qwt256_from_vec", {"T": "@T", "RS": "RSQVector", "S": "RSSupportPlain", "B_SIZE": 256, "WITH_PREFETCH_SUPPORT": False}),
     ("src/quadwt/mod.rs", "QWaveletTree", "From::from", "g_qwt512_from_vec", {"T": "@T", "RS": "RSQVector", "S": "RSSupportPlain", "B_SIZE": 512, "WITH_PREFETCH_SUPPORT": False}),
 ]
@@ -366,7 +372,7 @@ GROUP_IMPORTS = {
     "wtnew": ["LeavesUtils", "FnsUtils", "FnsBv", "FnsBvm", "FnsRsw2"],
     "iters": ["LeavesUtils", "FnsBv"],
     "qwtnew": ["LeavesUtils", "FnsUtils", "FnsQv2", "FnsQvb", "FnsRss", "FnsRsq"],
-    "rsq": ["LeavesUtils", "LeavesSB", "LeavesLine", "LeavesQV", "FnsRss", "FnsQv2"],
+    "rsq": ["LeavesUtils", "LeavesSB", "LeavesLine", "LeavesQV", "FnsRss", "FnsQv2", "FnsQvb"],
 }
 
 GL.RESERVED |= set("""while_loop for_loop iter_loop Next Brk Ret Done Retd len concat ounwrap wshl wshr fsqrt fuel Some
@@ -1671,6 +1677,10 @@ class FnT5(FnTranslator):
             return "u32"
         if k == "mcall" and e[2] == "trailing_zeros" and not e[3] and self.ty(e[1], None, env) in INT:
             return "u32"
+        if k == "mcall" and e[2] == "collect" and not e[3] and isinstance(exp, tuple) and exp[0] == "record" and self.collect_source(e, env) is not None:
+            return exp
+        if k == "mcall" and e[2] == "collect" and not e[3] and (exp is None or is_list(exp)) and self.collect_source(e, env) is not None:
+            return self.ty(self.collect_source(e, env), None, env)      # collected into a Vec: the same sequence
         if k == "mcall" and e[2] == "max" and not e[3] and e[1][0] == "mcall" and e[1][2] == "iter" and not e[1][3] and is_list(self.ty(e[1][1], None, env)):
             return ("option", self.ty(e[1][1], None, env)[1])
         if k == "mcall":
@@ -2304,6 +2314,13 @@ class FnT5(FnTranslator):
         if k == "mcall" and e[2] == "leading_zeros" and not e[3] and self.ty(e[1], None, env) == "@T":
             self.needs_w = True
             return app("clz", "wT", self.val(e[1], None, cx)), True
+        if k == "mcall" and e[2] == "collect" and not e[3] and (exp is None or is_list(exp)) and self.collect_source(e, env) is not None:
+            return self.emit(self.collect_source(e, env), exp, cx)
+        if k == "mcall" and e[2] == "collect" and not e[3] and isinstance(exp, tuple) and exp[0] == "record" and self.collect_source(e, env) is not None:
+            # L.iter().copied().collect::<S>() = S::from_iter over the items of L
+            src = self.collect_source(e, env)
+            sig = self.method_sig(exp[1], exp[2], "from_iter")
+            return self.emit_call5(sig, None, [src], cx)
         if k == "mcall" and e[2] == "max" and not e[3] and e[1][0] == "mcall" and e[1][2] == "iter" and not e[1][3] and is_list(self.ty(e[1][1], None, env)):
             # L.iter().max(): the largest element, None on an empty sequence
             return app("max_opt", self.val(e[1][1], None, cx)), True
@@ -2843,9 +2860,9 @@ class FnT5(FnTranslator):
                     lists[pp] = (cn, ("slice", tt))
                     L.append("let %s := [] in" % cn)
                 cx.env[s[1]] = (None, ("soalocal", st[1], st[2], lists), cx.depth)
-            elif k == "let" and isinstance(s[1], str) and s[3] is not None and self.record_value_type(s[3], cx.env) is not None:
+            elif k == "let" and isinstance(s[1], str) and s[3] is not None and self.record_value_type(s[3], cx.env, s[2]) is not None:
                 # a local of a several-field struct type: one variable per field
-                t = self.record_value_type(s[3], cx.env)
+                t = self.record_value_type(s[3], cx.env, s[2])
                 v, pure = self.emit(s[3], t, cx)
                 self.bind_record(s[1], t, cx, v, pure)
             elif k == "let":
@@ -3017,9 +3034,13 @@ class FnT5(FnTranslator):
                 self.fail("default value of a field of type %s" % (tt,))
         return out
 
-    def record_value_type(self, e, env):
+    def record_value_type(self, e, env, ann=None):
         try:
-            t = self.ty(e, None, env)
+            exp = None
+            if ann is not None:
+                a2 = self.sub_t(ann)
+                exp = self.norm(a2, self.unit.rel) if isinstance(a2, tuple) else a2
+            t = self.ty(e, exp, env)
         except Unsupported:
             return None
         if isinstance(t, tuple) and t[0] == "record" and all(len(pp) == 1 for pp, _ in self.leaf_paths(("struct", t[1]), self.world.unit(t[2]))):
@@ -3070,6 +3091,19 @@ class FnT5(FnTranslator):
                 return None
             if isinstance(n, tuple) and n[0] == "record":
                 return n
+        return None
+
+    def collect_source(self, e, env):
+        """x.iter().copied().collect() / x.iter().cloned().collect() / x.into_iter().collect(): the list x"""
+        r = e[1]
+        if r[0] == "mcall" and r[2] in ("copied", "cloned") and not r[3]:
+            r = r[1]
+        if r[0] == "mcall" and r[2] in ("iter", "into_iter") and not r[3]:
+            try:
+                if is_list(self.ty(r[1], None, env)):
+                    return r[1]
+            except Unsupported:
+                return None
         return None
 
     def record_value_type_nested(self, e, env):
@@ -3783,22 +3817,23 @@ From QwtModel Require Import ListX Loops SelTable Words%s.
 BV_GROUP_COQ = {"g_get_bit_slice", "g_get_bits_slice"}     # BitVectorMut::get_bit_slice belongs to the BitVector accessors (group bv)
 
 
-QWTNEW_COQ = ("g_qwt256_new", "g_qwt512_new", "g_qwt256_from_vec", "g_qwt512_from_vec")
+WTNEW_COQ = ("g_wt_new", "g_wt_from_iter", "g_wt_from_vec")
+QWTNEW_COQ = ("g_qwt256_new", "g_qwt512_new", "g_qwt256_from_vec", "g_qwt512_from_vec", "g_qwt256_from_iter", "g_qwt512_from_iter")
 
 
 def in_group(group, owners_g, owner, coq):
     if group == "qwt":
         return coq not in QWTNEW_COQ
     if group == "wt":
-        return coq != "g_wt_new"
+        return coq not in WTNEW_COQ
     if owners_g is None:
         return True
     if group == "bv":
         return (owner in ("DataLine", "BitVector") and coq != "g_bline_set_symbol") or coq in BV_GROUP_COQ
     if group == "wtnew":
-        return coq == "g_wt_new"
+        return coq in WTNEW_COQ
     if group == "wt":
-        return coq != "g_wt_new"
+        return coq not in WTNEW_COQ
     if group == "qwtnew":
         return coq in QWTNEW_COQ
     if group == "qwt":
